@@ -12,6 +12,7 @@ class TimePattern(i_lib.TimePattern):
     def __init__(self, hours, minutes):
         self._repr = 'TimePattern("{}", "{}")'.format(hours, minutes)
         self._hour_set, self._minute_set = set(), set()
+        self._alternatives = []
         if hours and minutes:
             self._init_hour_set(hours)
             self._init_minute_set(minutes)
@@ -64,11 +65,23 @@ class TimePattern(i_lib.TimePattern):
         return 0 <= int_minutes < 60
 
     def union(self, other):
-        self._hour_set.update(other._hour_set)
-        self._minute_set.update(other._minute_set)
+        # After this, a time matches if it matches this pattern or other. The
+        # other pattern is not modified.
+        if other is not self:
+            self._alternatives.append(other)
+
+    def copy(self):
+        dup = TimePattern(None, None)
+        dup._repr = self._repr
+        dup._hour_set = self._hour_set.copy()
+        dup._minute_set = self._minute_set.copy()
+        dup._alternatives = list(self._alternatives)
+        return dup
 
     def match(self, hours, minutes):
-        return hours in self._hour_set and minutes in self._minute_set
+        if hours in self._hour_set and minutes in self._minute_set:
+            return True
+        return any(alt.match(hours, minutes) for alt in self._alternatives)
 
     def _init_hour_set(self, pattern):
         if pattern == '*':
